@@ -52,15 +52,15 @@ MAX_REPORTED_PER_SIGNATURE = 2
 def consts_for(ctx, which):
     if which == "exhaustive":
         if ctx.quick:
-            return {"MaxHosts": 4, "MaxDCs": 2, "MaxRacks": 2, "MaxRing": 5, "MaxRF": 4, "Lens": set(range(1, 6)), "MaxAlters": 0, "MaxMoves": 0, "MaxOps": 0}
-        return {"MaxHosts": 4, "MaxDCs": 2, "MaxRacks": 3, "MaxRing": 6, "MaxRF": 4, "Lens": set(range(1, 7)), "MaxAlters": 0, "MaxMoves": 0, "MaxOps": 0}
+            return {"MaxHosts": 4, "MaxDCs": 2, "MaxRacks": 2, "MaxRing": 5, "MaxRF": 4, "Lens": set(range(1, 6)), "MaxAlters": 0, "MaxMoves": 0, "MaxOps": 0, "ZeroStyles": {"omitted"}}
+        return {"MaxHosts": 4, "MaxDCs": 2, "MaxRacks": 3, "MaxRing": 6, "MaxRF": 4, "Lens": set(range(1, 7)), "MaxAlters": 0, "MaxMoves": 0, "MaxOps": 0, "ZeroStyles": {"omitted", "explicit"}}
     if which == "alter":        # histories: settings installed, replicas looked up, settings altered (MaxAlters times)
         if ctx.quick:
-            return {"MaxHosts": 3, "MaxDCs": 2, "MaxRacks": 2, "MaxRing": 3, "MaxRF": 2, "Lens": {2, 3}, "MaxAlters": 1, "MaxMoves": 1, "MaxOps": 1}
-        return {"MaxHosts": 3, "MaxDCs": 2, "MaxRacks": 2, "MaxRing": 3, "MaxRF": 2, "Lens": {2, 3}, "MaxAlters": 2, "MaxMoves": 2, "MaxOps": 2}
+            return {"MaxHosts": 3, "MaxDCs": 2, "MaxRacks": 2, "MaxRing": 3, "MaxRF": 2, "Lens": {2, 3}, "MaxAlters": 1, "MaxMoves": 1, "MaxOps": 1, "ZeroStyles": {"omitted", "explicit"}}
+        return {"MaxHosts": 3, "MaxDCs": 2, "MaxRacks": 2, "MaxRing": 3, "MaxRF": 2, "Lens": {2, 3}, "MaxAlters": 2, "MaxMoves": 2, "MaxOps": 2, "ZeroStyles": {"omitted", "explicit"}}
     if which == "witness":
-        return {"MaxHosts": 3, "MaxDCs": 2, "MaxRacks": 2, "MaxRing": 4, "MaxRF": 3, "Lens": {4}, "MaxAlters": 1, "MaxMoves": 1, "MaxOps": 1}
-    return {"MaxHosts": 6, "MaxDCs": 2, "MaxRacks": 3, "MaxRing": 8, "MaxRF": 4, "Lens": {5, 6, 7, 8}, "MaxAlters": 0, "MaxMoves": 0, "MaxOps": 0}
+        return {"MaxHosts": 3, "MaxDCs": 2, "MaxRacks": 2, "MaxRing": 4, "MaxRF": 3, "Lens": {4}, "MaxAlters": 1, "MaxMoves": 1, "MaxOps": 1, "ZeroStyles": {"omitted"}}
+    return {"MaxHosts": 6, "MaxDCs": 2, "MaxRacks": 3, "MaxRing": 8, "MaxRF": 4, "Lens": {5, 6, 7, 8}, "MaxAlters": 0, "MaxMoves": 0, "MaxOps": 0, "ZeroStyles": {"omitted"}}
 
 
 def signature_of(inst, bad):
@@ -187,7 +187,7 @@ def run(ctx):
         if ares.coverage().get(a, (0, 0))[1] == 0:
             raise tlc.MachineryError("action %s never taken" % a)
     static = {}
-    histories, moves = [], []
+    histories, moves, explicit_zero = [], [], []
     for st in done_states(astates):
         inst = P.instance_of(st)
         if inst.get("log"):
@@ -196,6 +196,8 @@ def run(ctx):
             histories.append(inst)
         else:
             static[(tuple(inst["ring"]), tuple(inst["dc"]), tuple(inst["rack"]), repr(inst["strat"]))] = inst
+            if inst["strat"].get("zero") == "explicit":        # a datacenter listed with rf '0' (not enumerated above in quick)
+                explicit_zero.append(inst)
     del astates
     ctx.note("constants_histories", {k: (sorted(v) if isinstance(v, set) else v) for k, v in aconsts.items()})
     ctx.note("altered_histories", len(histories))
@@ -205,6 +207,11 @@ def run(ctx):
     kinds = {(h["hist"][-2]["kind"], h["hist"][-1]["kind"]) for h in histories}
     if kinds != {("Simple", "Simple"), ("Simple", "NTS"), ("NTS", "Simple"), ("NTS", "NTS")}:
         raise tlc.MachineryError("alterations enumerated do not cover all strategy changes: %s" % sorted(kinds))
+    ctx.note("explicit_rf0_instances", len(explicit_zero))
+    if not any(any(rf == 0 and (d + 1) in i["dc"] for d, rf in enumerate(i["strat"]["rfs"])) for i in explicit_zero):
+        raise tlc.MachineryError("no instance lists rf 0 for a datacenter that has hosts")
+    for inst in explicit_zero:
+        tally.add(ctx, inst)
     for n, inst in enumerate(histories):
         ok = tally.add(ctx, inst)
         if ok and n % 700 == 3:
@@ -232,17 +239,17 @@ def run(ctx):
     step = 4 if ctx.quick else 1
     chosen = (chosen + rest[::step])[:budget] if len(chosen) <= budget else chosen[::(len(chosen) // budget + 1)]
     ctx.note("move_histories_bound", len(chosen))
-    changed_clean = None
+    changed_clean = []
     for n, inst in enumerate(chosen):
         ok = tally.add(ctx, inst)
-        if ok and changes(inst) and len(inst["log"]) == 1 and changed_clean is None:
-            changed_clean = inst
+        if ok and changes(inst) and len(inst["log"]) == 1 and len(changed_clean) < 12:
+            changed_clean.append(inst)
         if ok and n % 500 == 7:
             ctx.sample({k: inst[k] for k in ("ring", "dc0", "rack0", "hist", "log", "byKey")})
     # self-test: without the move the same expectations must be rejected
-    if changed_clean is not None:
-        if not P.evaluate_history(dict(changed_clean, log=[])):
-            raise tlc.MachineryError("binding self-test failed: dropping the host move does not influence the verdict")
+    if changed_clean:
+        if not any(P.evaluate_history(dict(c, log=[])) for c in changed_clean):
+            raise tlc.MachineryError("binding self-test failed: dropping the host move never influences the verdict")
         selftest_move = 1
     else:
         selftest_move = 0                    # (possible only when the driver under test fails every such history)
